@@ -25,10 +25,14 @@ diagnosis of the result object: ``dense`` (amplitudes wrong at once), ``qntot`` 
 from the sector the dense object lives in), ``labels`` (tensor weight outside the blocks allowed
 by qn/qnidx/qntot, recomputed independently), else ``post-<variant>``.  A violation is only
 recorded when (1) or (2) fails -- inconsistent labels alone are not reported here (C06).
-Known defects of the pinned tree re-found here:
-  D1  add:centres-differ:labels
+Defects of the pinned tree (ee24c78) re-found here, each under its own stable signature (all four
+repaired by fix: commits in /repo; the signatures fire again when the repair is reverted):
+  D1  add:centres-differ:labels                        (add/sub of any kind, centres differ)
   D2  conj_trans:charged-op:qntot
-  D9  add/distance:coeffs-close-unequal:fold-skipped
+  D9  add/distance:coeffs-close-unequal:fold-skipped   (coefficients differing by 8e-6 relative)
+  new add:one-site:boundary-bond                       (add on a one-site chain stacked the tensors)
+Failures of operand preparation by the implementation are reported as
+``history:<kind>:<ops>:object-changed`` / ``<scenario>:operand-preparation:unexpected-<Exception>``.
 """
 import time
 
